@@ -97,6 +97,8 @@ def main():
                 sh("rm -rf %s/*/data %s/data %s/cmd/*/data" % (wt, wt, wt))
                 # apply
                 rc, out = sh("git apply %s" % os.path.join(src, "patch.diff"), cwd=wt)
+                if rc:      # made against an older HEAD (fix: commits since): three-way merge
+                    rc, out = sh("git apply --3way %s" % os.path.join(src, "patch.diff"), cwd=wt)
                 if rc:
                     rec["status"] = "patch does not apply: " + out[-300:]
                     continue
